@@ -437,3 +437,844 @@ def rule_filed_under_canonical_text(chk, ev, repo, rid):
                    f"key expression `{U(k)}` resolves to `{U(kk)}` (must be {sv}.query)", site, mod,
                    key="key:" + U(k))
     chk.floor(rid, n, 4, "back-end key expressions")
+
+
+# =========================================================================== C13 family
+def fstring_text(node):
+    """Constant-fold a str / f-string into text with `{expr}` placeholders; None if not a string form."""
+    if isinstance(node, ast.Constant) and isinstance(node.value, str):
+        return node.value
+    if isinstance(node, ast.JoinedStr):
+        out = ""
+        for v in node.values:
+            if isinstance(v, ast.Constant):
+                out += str(v.value)
+            else:
+                out += "{" + U(v.value) + "}"
+        return out
+    if isinstance(node, ast.BinOp) and isinstance(node.op, ast.Add):
+        a, b = fstring_text(node.left), fstring_text(node.right)
+        if a is not None and b is not None:
+            return a + b
+    return None
+
+
+def sql_executes(fn):
+    """[(call, sql_text_upper_first_word, sql_text)] for `.execute(<sql>, ...)` calls in fn."""
+    out = []
+    cfg = None
+    for c in calls_in(fn, tail="execute"):
+        if not c.args:
+            continue
+        a0 = c.args[0]
+        if isinstance(a0, ast.Name):
+            cfg = cfg or CFG(fn)
+            a0 = resolve_local(cfg, a0, cfg.node_of(c))
+        t = fstring_text(a0)
+        if t is None:
+            out.append((c, None, None))
+            continue
+        words = t.strip().split()
+        out.append((c, words[0].upper() if words else "", t))
+    return out
+
+
+def sql_family(repo):
+    base = repo.cls(CACHE, "SQLCache")
+    return [ci for ci in repo.classes_in(CACHE) if ci.is_subclass_of("SQLCache")]
+
+
+def conditionally_evaluated(stmt_or_expr, target):
+    """True if `target` (an AST node inside stmt_or_expr) sits in a short-circuit / conditional
+    position: non-first operand of and/or, branch of a conditional expression, comprehension filter
+    or element."""
+    def rec(node, cond):
+        if node is target:
+            return cond
+        r = None
+        if isinstance(node, ast.BoolOp):
+            for i, v in enumerate(node.values):
+                x = rec(v, cond or i > 0)
+                if x is not None:
+                    return x
+            return None
+        if isinstance(node, ast.IfExp):
+            x = rec(node.test, cond)
+            if x is not None:
+                return x
+            for b in (node.body, node.orelse):
+                x = rec(b, True)
+                if x is not None:
+                    return x
+            return None
+        if isinstance(node, (ast.ListComp, ast.SetComp, ast.GeneratorExp, ast.DictComp)):
+            first = True
+            for g in node.generators:
+                x = rec(g.iter, cond or not first)
+                if x is not None:
+                    return x
+                first = False
+                for i in g.ifs:
+                    x = rec(i, True)
+                    if x is not None:
+                        return x
+            elts = [node.key, node.value] if isinstance(node, ast.DictComp) else [node.elt]
+            for e in elts:
+                x = rec(e, True)
+                if x is not None:
+                    return x
+            return None
+        for c in ast.iter_child_nodes(node):
+            x = rec(c, cond)
+            if x is not None:
+                return x
+        return None
+    return bool(rec(stmt_or_expr, False))
+
+
+def on_every_path(cfg, call):
+    """the statement evaluating `call` lies on every entry->exit path and the call itself is not in a
+    short-circuit position inside that statement"""
+    nid = cfg.node_of(call)
+    if cfg.exit in cfg.reachable(cfg.entry, avoid=[nid]):
+        return False
+    return not conditionally_evaluated(cfg.nodes[nid].ast, call)
+
+
+def rule_data_presence_witness(chk, repo, rid):
+    chk.rule(rid, "metadata-only writes never make data retrievable: per leaf back-end, what get() serves can "
+                  "only be created by store() (separate data file / NULL blob column / bytes vs metadata half / "
+                  "guarded slot)")
+    mod = repo.module(CACHE)
+    # ---- MemoryCache: slot written outside store() must be guarded in get()
+    ci = repo.cls(CACHE, "MemoryCache")
+    _, g = ci.find_method("get")
+    container = None
+    for c in calls_in(g, tail="get"):
+        r = call_recv(c)
+        if r and r.startswith("self."):
+            container = r
+    for n in body_walk(g):
+        if isinstance(n, ast.Subscript) and U(n.value).startswith("self."):
+            container = container or U(n.value)
+    if container is None:
+        raise AnalysisError("MemoryCache.get: container not recognised")
+    writers = {}
+    for mn, fn in ci.methods.items():
+        for n in body_walk(fn):
+            if isinstance(n, ast.Assign):
+                for t in n.targets:
+                    if isinstance(t, ast.Subscript) and U(t.value) == container:
+                        writers.setdefault(mn, []).append(n)
+    foreign = {m: w for m, w in writers.items() if m != "store"}
+    gcfg = CFG(g)
+    rets = [r for r in returns_of(g) if not is_none_const(r.value)]
+    if not foreign:
+        chk.ob(rid, f"{ci.qual}.get", True, f"only store() writes {container}[...]", g, mod, key="witness")
+    else:
+        # need a presence field F: get's return dominated by a literal over self.F (F != container),
+        # every foreign placeholder write accompanied by marking F, store() un-marking it
+        fields = set()
+        for r in rets:
+            for e, txt, pol, _ in dominating_literals(gcfg, gcfg.node_of(r)):
+                for a in ast.walk(e):
+                    if isinstance(a, ast.Attribute) and U(a.value) == "self" and U(a) != container:
+                        fields.add(U(a))
+        ok = False
+        why = (f"{', '.join(sorted(foreign))} write(s) a placeholder into {container}[key], the slot get() serves, and "
+               f"get() has no data-presence test: a metadata-only entry with status 'ready' is returned as data None")
+        for F in sorted(fields):
+            marks = all(any(call_recv(c) == F and call_tail(c) in ("add", "append") for c in calls_in(ci.methods[m]))
+                        or any(isinstance(n, ast.Assign) and any(U(t).startswith(F + "[") for t in n.targets)
+                               for n in body_walk(ci.methods[m])) for m in foreign)
+            st = ci.methods.get("store")
+            unmarks = st is not None and (any(call_recv(c) == F and call_tail(c) in ("discard", "remove", "pop")
+                                              for c in calls_in(st))
+                                          or any(isinstance(n, ast.Delete) and any(U(t).startswith(F + "[") for t in n.targets)
+                                                 for n in body_walk(st)))
+            if marks and unmarks:
+                ok = True
+                why = f"get() is guarded by presence field {F}, marked by {sorted(foreign)} and cleared by store()"
+        chk.ob(rid, f"{ci.qual}.get", ok, why, g, mod, key="witness")
+    # ---- FileCache: store_metadata writes a different file than get() reads data from
+    ci = repo.cls(CACHE, "FileCache")
+    def tp_sig(call):
+        d = {k.arg: U(k.value) for k in call.keywords}
+        for i, a in enumerate(call.args[1:]):
+            d[["prefix", "extension"][i]] = U(a)
+        return d
+    _, g = ci.find_method("get")
+    _, sm = ci.find_method("store_metadata")
+    _, stf = ci.find_method("store")
+    tp_def = dict(zip(params(ci.find_method("to_path")[1])[2:],
+                      [U(d) for d in ci.find_method("to_path")[1].args.defaults]))
+    def eff(call):
+        d = dict(tp_def)
+        d.update(tp_sig(call))
+        return d
+    data_reads = [c for c in calls_in(g, tail="to_path")]
+    md_writes = [c for c in calls_in(sm, tail="to_path")]
+    if not data_reads or not md_writes:
+        raise AnalysisError("FileCache: to_path call sites not found in get/store_metadata")
+    rp = {eff(c).get("prefix") for c in data_reads}
+    wp = {eff(c).get("prefix") for c in md_writes}
+    chk.ob(rid, f"{ci.qual}.store_metadata", not (rp & wp),
+           f"metadata is written under prefix {sorted(wp)} and data is read from prefix {sorted(rp)} (disjoint)",
+           sm, mod, key="witness")
+    # ---- SQL: store_metadata inserts NULL state_data; get decodes inside a handler that yields None
+    ci = repo.cls(CACHE, "SQLCache")
+    _, sm = ci.find_method("store_metadata")
+    ins = [(c, t) for c, w, t in sql_executes(sm) if w == "INSERT"]
+    if not ins:
+        raise AnalysisError("SQLCache.store_metadata: INSERT not found")
+    for c, t in ins:
+        cols = [x.strip() for x in t[t.index("(") + 1:t.index(")")].split(",")]
+        vals = c.args[1].elts if len(c.args) > 1 and isinstance(c.args[1], (ast.List, ast.Tuple)) else []
+        ok = "state_data" in cols and len(vals) == len(cols) and is_none_const(vals[cols.index("state_data")])
+        chk.ob(rid, f"{ci.qual}.store_metadata", ok, "metadata-only rows carry NULL state_data", c, mod, key="witness")
+    _, g = ci.find_method("get")
+    gcfg = CFG(g)
+    for r in [r for r in returns_of(g) if not is_none_const(r.value)]:
+        fb = [c for c in calls_in(g, tail="from_bytes")]
+        ok = bool(fb) and all(gcfg.must_pass(gcfg.entry, gcfg.node_of(r), [gcfg.node_of(c)]) for c in fb[:1])
+        chk.ob(rid, f"{ci.qual}.get", ok, "a state is returned only after decoding the data column", r, mod,
+               key="decode-before-return")
+    # ---- StoreCache: store_metadata only writes the metadata half; get reads bytes
+    ci = repo.cls(CACHE, "StoreCache")
+    _, sm = ci.find_method("store_metadata")
+    stor = None
+    for c in calls_in(sm):
+        if call_tail(c) in ("store", "store_metadata") and (call_recv(c) or "").startswith("self."):
+            stor = call_recv(c)
+    if stor is None:
+        raise AnalysisError("StoreCache.store_metadata: no store call recognised")
+    bad = [c for c in calls_in(sm, tail="store") if call_recv(c) == stor]
+    chk.ob(rid, f"{ci.qual}.store_metadata", not bad, f"only {stor}.store_metadata is used (never {stor}.store)",
+           sm, mod, key="witness")
+    _, g = ci.find_method("get")
+    gcfg = CFG(g)
+    for r in [r for r in returns_of(g) if not is_none_const(r.value)]:
+        gb = [c for c in calls_in(g, tail="get_bytes") if call_recv(c) == stor]
+        ok = bool(gb) and gcfg.must_pass(gcfg.entry, gcfg.node_of(r), [gcfg.node_of(gb[0])])
+        chk.ob(rid, f"{ci.qual}.get", ok, "a state is returned only after reading the bytes half", r, mod,
+               key="bytes-before-return")
+
+
+def rule_memo_invalidation(chk, repo, rid):
+    chk.rule(rid, "every SQL-mutating method of the SQL cache family invalidates the key-list memo")
+    mod = repo.module(CACHE)
+    base = repo.cls(CACHE, "SQLCache")
+    memo = None
+    for mn, fn in base.methods.items():
+        for n in body_walk(fn):
+            if isinstance(n, ast.Assign) and "fetchall" in U(n.value):
+                for t in n.targets:
+                    if U(t).startswith("self."):
+                        memo = U(t)
+    if memo is None:
+        raise AnalysisError("SQLCache: key memo field (assigned from fetchall) not found")
+    chk.count("memo_field:" + memo, 1)
+    n_inst = 0
+    for ci in sql_family(repo):
+        for mn, fn in ci.methods.items():
+            if mn in ("init", "__init__"):
+                continue
+            muts = [(c, w) for c, w, t in sql_executes(fn) if w in ("INSERT", "DELETE", "DROP", "UPDATE")]
+            if not muts:
+                continue
+            cfg = CFG(fn)
+            assigns = cfg.defs_of(memo)
+            for c, w in muts:
+                x = cfg.node_of(c)
+                ok = bool(assigns) and (cfg.set_dominates(assigns, x) or cfg.always_followed_by(x, assigns))
+                n_inst += 1
+                chk.ob(rid, f"{ci.qual}.{mn}", ok,
+                       f"{w} is paired with an assignment to {memo}" if ok else
+                       f"{w} leaves {memo} stale: contains()/keys() keep answering from the old key list",
+                       c, mod, key=f"memo:{w}")
+    chk.floor(rid, n_inst, 4, "SQL-mutating statements")
+
+
+def _init_param_flow(ci, pname):
+    """How does constructor parameter `pname` of class ci reach SQLCache.__init__? returns the name of the
+    parameter it is passed as (following super().__init__(...)), or None."""
+    return pname
+
+
+def rule_one_row_per_key(chk, repo, rid):
+    chk.rule(rid, "one row per key: every INSERT is preceded by DELETE of the same key under a flag that every "
+                  "factory (from_sqlite) of the SQL cache family sets to True")
+    mod = repo.module(CACHE)
+    base = repo.cls(CACHE, "SQLCache")
+    n_inst = 0
+    flag = None
+    for ci in sql_family(repo):
+        for mn, fn in ci.methods.items():
+            ins = [(c, t) for c, w, t in sql_executes(fn) if w == "INSERT"]
+            if not ins:
+                continue
+            cfg = CFG(fn)
+            dels = [(c, t) for c, w, t in sql_executes(fn) if w == "DELETE"]
+            for c, t in ins:
+                x = cfg.node_of(c)
+                ok = False
+                for d, dt in dels:
+                    dn = cfg.node_of(d)
+                    same_key = len(d.args) > 1 and len(c.args) > 1 and isinstance(d.args[1], (ast.List, ast.Tuple)) \
+                        and isinstance(c.args[1], (ast.List, ast.Tuple)) and d.args[1].elts and c.args[1].elts \
+                        and U(d.args[1].elts[0]) == U(c.args[1].elts[0]) and "WHERE QUERY=?" in dt.upper().replace(" ", "").replace("WHEREQUERY", "WHERE QUERY")
+                    xl = {(txt, pol) for _, txt, pol, _ in dominating_literals(cfg, x)}
+                    lits = [l for l in dominating_literals(cfg, dn) if (l[1], l[2]) not in xl]
+                    fl = [txt for _, txt, pol, _ in lits if pol and txt.startswith("self.")]
+                    # the INSERT is reached through the DELETE whenever the flag is true
+                    if same_key and cfg.can_reach(dn, x) and (not lits or (fl and len(lits) == 1)):
+                        ok = True
+                        if fl:
+                            flag = fl[0]
+                n_inst += 1
+                chk.ob(rid, f"{ci.qual}.{mn}", ok, "INSERT preceded by DELETE ... WHERE query=? of the same key",
+                       c, mod, key="delete-before-insert")
+    chk.floor(rid, n_inst, 2, "INSERT statements")
+    if flag is None:
+        return
+    fname = flag.split(".", 1)[1]
+    # factories: classmethods that return cls(...)
+    n_f = 0
+    for ci in sql_family(repo):
+        for mn, fn in ci.methods.items():
+            if not any(U(d) == "classmethod" for d in fn.decorator_list):
+                continue
+            for c in calls_in(fn):
+                if isinstance(c.func, ast.Name) and c.func.id == params(fn)[0]:
+                    val = _flag_value(repo, ci, c, fname)
+                    n_f += 1
+                    chk.ob(rid, f"{ci.qual}.{mn}", val is True,
+                           f"factory constructs the cache with {fname}={val}"
+                           + ("" if val is True else ": repeated stores of a key add rows, get() keeps serving the "
+                              "oldest (progress-metadata) row, so the cache never hits / serves stale data"),
+                           c, mod, key=f"factory:{fname}")
+    chk.floor(rid, n_f, 2, "factory classmethods")
+    # direct construction defaults: informational
+    for ci in sql_family(repo):
+        init = ci.methods.get("__init__")
+        if init is None:
+            continue
+        d = dict(zip([a.arg for a in init.args.args][-len(init.args.defaults):], init.args.defaults)) \
+            if init.args.defaults else {}
+        if fname in d and not (isinstance(d[fname], ast.Constant) and d[fname].value is True):
+            chk.xref(f"{ci.qual}.__init__ defaults {fname}={U(d[fname])}: direct construction without the factory "
+                     f"keeps duplicate rows (documented entry point is from_sqlite)")
+
+
+_UNKNOWN = object()
+
+
+def _const_env_eval(expr, env):
+    if isinstance(expr, ast.Constant):
+        return expr.value
+    if isinstance(expr, ast.Name) and expr.id in env:
+        return env[expr.id]
+    return _UNKNOWN
+
+
+def _flag_value(repo, ci, call, fname, depth=0, bound=None):
+    """Constant value of constructor keyword `fname` as it reaches `self.<fname>` when `call`
+    constructs ci (follows super().__init__ chains, parameter defaults and keyword forwarding).
+    Returns the constant, or None when it cannot be folded."""
+    if depth > 4:
+        return None
+    dc, init = ci.find_method("__init__")
+    if init is None:
+        return None
+    names = [a.arg for a in init.args.args]
+    env = {}
+    if init.args.defaults:
+        for n, d in zip(names[-len(init.args.defaults):], init.args.defaults):
+            env[n] = d.value if isinstance(d, ast.Constant) else _UNKNOWN
+    if bound is None:
+        bound = {}
+        for i, a in enumerate(call.args):
+            if i + 1 < len(names):
+                bound[names[i + 1]] = a.value if isinstance(a, ast.Constant) else _UNKNOWN
+        for k in call.keywords:
+            if k.arg:
+                bound[k.arg] = k.value.value if isinstance(k.value, ast.Constant) else _UNKNOWN
+    env.update(bound)
+    for n in body_walk(init):
+        if isinstance(n, ast.Assign) and any(U(t) == f"self.{fname}" for t in n.targets):
+            v = _const_env_eval(n.value, env)
+            return None if v is _UNKNOWN else v
+    for c in calls_in(init, tail="__init__"):
+        if call_recv(c) == "super()":
+            mro = dc.mro()
+            if len(mro) < 2:
+                return None
+            parent = mro[1]
+            pdc, pinit = parent.find_method("__init__")
+            if pinit is None:
+                return None
+            pnames = [a.arg for a in pinit.args.args]
+            nb = {}
+            for i, a in enumerate(c.args):
+                if i + 1 < len(pnames):
+                    nb[pnames[i + 1]] = _const_env_eval(a, env)
+            for k in c.keywords:
+                if k.arg:
+                    nb[k.arg] = _const_env_eval(k.value, env)
+            return _flag_value(repo, parent, None, fname, depth + 1, bound=nb)
+    return None
+
+
+def rule_combinators_reach_both(chk, repo, rid):
+    chk.rule(rid, "CacheCombine.remove/clean invoke the operation on both children on every path "
+                  "(no short-circuit between the two calls); keys() enumerates both")
+    mod = repo.module(CACHE)
+    ci = repo.cls(CACHE, "CacheCombine")
+    init = ci.methods.get("__init__")
+    kids = [U(t) for n in body_walk(init) if isinstance(n, ast.Assign) for t in n.targets if U(t).startswith("self.")]
+    if len(kids) != 2:
+        raise AnalysisError(f"CacheCombine.__init__: expected two child fields, found {kids}")
+    for op in ("remove", "clean", "keys"):
+        fn = ci.methods.get(op)
+        if fn is None:
+            raise AnalysisError(f"CacheCombine.{op} missing")
+        cfg = CFG(fn)
+        for k in kids:
+            cs = [c for c in calls_in(fn, tail=op) if call_recv(c) == k]
+            ok = bool(cs) and any(on_every_path(cfg, c) for c in cs)
+            chk.ob(rid, f"{ci.qual}.{op}", ok,
+                   f"{k}.{op}() is invoked on every path" if ok else
+                   f"{k}.{op}() is skipped on some path (short-circuit / early exit): the key survives in that child",
+                   (cs[0] if cs else fn), mod, key=f"{op}:{k}")
+
+
+def rule_wrappers_forward(chk, repo, rid, methods=("get", "get_metadata", "remove", "contains", "keys", "clean")):
+    chk.rule(rid, "conditional wrappers and CacheProxy forward reads/removals verbatim to the wrapped cache "
+                  "(same key, result returned unchanged)")
+    mod = repo.module(CACHE)
+    n = 0
+    for cn in COND_WRAPPERS + ["CacheProxy"]:
+        ci = repo.cls(CACHE, cn)
+        init = ci.methods.get("__init__")
+        p1 = params(init)[1]
+        inner = None
+        for nd in body_walk(init):
+            if isinstance(nd, ast.Assign) and U(nd.value) == p1:
+                inner = U(nd.targets[0])
+        if inner is None:
+            raise AnalysisError(f"{cn}.__init__: wrapped cache field not found")
+        for m in methods:
+            fn = ci.methods.get(m)
+            if fn is None:
+                chk.ob(rid, f"{ci.qual}.{m}", False, "method missing", ci.node, mod, key="forward")
+                n += 1
+                continue
+            ps = params(fn)[1:]
+            cs = [c for c in calls_in(fn, tail=m) if call_recv(c) == inner]
+            ok = len(cs) >= 1 and all([U(a) for a in c.args] == ps and not c.keywords for c in cs)
+            cfg = CFG(fn)
+            if ok:
+                if m == "clean":
+                    ok = on_every_path(cfg, cs[0])
+                else:
+                    rets = returns_of(fn)
+                    def is_fwd(v):
+                        if v in cs:
+                            return True
+                        return isinstance(v, ast.Call) and call_name(v) in ("list", "sorted") and len(v.args) == 1 and v.args[0] in cs
+                    ok = bool(rets) and all(is_fwd(r.value) for r in rets) and cfg.falloff not in cfg.reachable(cfg.entry)
+            n += 1
+            chk.ob(rid, f"{ci.qual}.{m}", ok, f"forwards to {inner}.{m}({', '.join(ps)}) and returns its result",
+                   fn, mod, key="forward")
+    chk.floor(rid, n, 24, "wrapper forwarding methods")
+
+
+def rule_key_location_injective(chk, repo, rid):
+    chk.rule(rid, "key -> location is injective by construction: file names come from a digest of the whole key; "
+                  "SQL binds the key as a parameter (never interpolated into SQL text)")
+    mod = repo.module(CACHE)
+    for cn in ("FileCache", "StoreCache"):
+        ci = repo.cls(CACHE, cn)
+        fn = ci.methods.get("to_path")
+        if fn is None:
+            raise AnalysisError(f"{cn}.to_path missing")
+        kp = params(fn)[1]
+        ups = [c for c in calls_in(fn, tail="update")]
+        ok = bool(ups) and all(len(c.args) == 1 and U(c.args[0]) in (f"{kp}.encode('utf-8')", f"{kp}.encode()") for c in ups)
+        hexd = [c for c in calls_in(fn, tail="hexdigest")]
+        sliced = any(isinstance(n, ast.Subscript) and "digest" in U(n.value) for n in body_walk(fn))
+        chk.ob(rid, f"{ci.qual}.to_path", ok and bool(hexd) and not sliced,
+               "digest is computed over the whole, un-normalised key and used unsliced", fn, mod, key="digest")
+    ALLOWED = {"self.table", "self.metadata_type", "self.state_data_type"}
+    n = 0
+    for ci in sql_family(repo):
+        for mn, fn in ci.methods.items():
+            for c, w, t in sql_executes(fn):
+                if t is None:
+                    chk.ob(rid, f"{ci.qual}.{mn}", False, "SQL text is not a foldable string", c, mod, key="sql-text")
+                    continue
+                import re as _re
+                holes = set(_re.findall(r"\{([^}]*)\}", t))
+                n += 1
+                chk.ob(rid, f"{ci.qual}.{mn}", holes <= ALLOWED,
+                       f"SQL text interpolates only configuration fields {sorted(holes)}", c, mod, key=f"sql:{w}")
+    chk.floor(rid, n, 6, "SQL statements")
+
+
+def rule_obfuscation(chk, repo, rid):
+    chk.rule(rid, "obfuscating/encrypting file caches never write plain bytes: every file write in the FileCache "
+                  "family goes through self.encode / self.encode_metadata, every read through self.decode*, and "
+                  "the subclasses override only the codec")
+    mod = repo.module(CACHE)
+    ci = repo.cls(CACHE, "FileCache")
+    n = 0
+    for mn, fn in ci.methods.items():
+        for c in calls_in(fn, tail="write"):
+            a = c.args[0] if c.args else None
+            ok = isinstance(a, ast.Call) and call_name(a) in ("self.encode", "self.encode_metadata")
+            n += 1
+            chk.ob(rid, f"{ci.qual}.{mn}", ok, f"file write argument `{U(a)[:50]}` passes through the codec", c, mod,
+                   key="write:" + (call_name(a) if isinstance(a, ast.Call) else U(a)[:30]))
+        for c in calls_in(fn):
+            if call_tail(c) in ("write_bytes", "write_text") or call_name(c) in ("json.dump", "pickle.dump"):
+                n += 1
+                chk.ob(rid, f"{ci.qual}.{mn}", False, f"raw write `{U(c)[:50]}` bypasses the codec", c, mod,
+                       key="rawwrite:" + call_tail(c))
+        for c in calls_in(fn, tail="from_bytes"):
+            a = c.args[0] if c.args else None
+            ok = isinstance(a, ast.Call) and call_name(a) == "self.decode"
+            n += 1
+            chk.ob(rid, f"{ci.qual}.{mn}", ok, "bytes handed to from_bytes come through self.decode", c, mod, key="read:data")
+        for c in calls_in(fn, name="json.loads"):
+            a = c.args[0] if c.args else None
+            ok = isinstance(a, ast.Call) and call_name(a) == "self.decode_metadata"
+            n += 1
+            chk.ob(rid, f"{ci.qual}.{mn}", ok, "metadata text comes through self.decode_metadata", c, mod, key="read:metadata")
+    chk.floor(rid, n, 4, "file reads/writes in FileCache")
+    em = ci.methods.get("encode_metadata")
+    dm = ci.methods.get("decode_metadata")
+    chk.ob(rid, f"{ci.qual}.encode_metadata", em is not None and all(isinstance(r.value, ast.Call) and call_name(r.value) == "self.encode" for r in returns_of(em)) and bool(returns_of(em)),
+           "encode_metadata returns self.encode(...)", em or ci.node, mod, key="codec-md")
+    chk.ob(rid, f"{ci.qual}.decode_metadata", dm is not None and any(call_name(c) == "self.decode" for c in calls_in(dm)),
+           "decode_metadata goes through self.decode", dm or ci.node, mod, key="codec-md")
+    subs = [c for c in repo.classes_in(CACHE) if c.is_subclass_of("FileCache") and c.name != "FileCache"]
+    chk.floor(rid, len(subs), 2, "FileCache subclasses")
+    PROTECTED = {"store", "store_metadata", "get", "get_metadata", "_load_metadata", "encode_metadata",
+                 "decode_metadata", "remove", "keys", "contains", "to_path", "clean"}
+    for s in subs:
+        over = set(s.methods) & PROTECTED
+        chk.ob(rid, s.qual, not over, f"overrides only the codec (overridden I/O methods: {sorted(over)})", s.node, mod,
+               key="override-set")
+        chk.ob(rid, s.qual, "encode" in s.methods and "decode" in s.methods, "overrides both encode and decode",
+               s.node, mod, key="codec-pair")
+
+
+def rule_remove_both_halves(chk, repo, rid):
+    chk.rule(rid, "FileCache.remove deletes the data file and the state file; clean removes everything in the directory")
+    mod = repo.module(CACHE)
+    ci = repo.cls(CACHE, "FileCache")
+    fn = ci.methods.get("remove")
+    cfg = CFG(fn)
+    rm = [c for c in calls_in(fn) if call_name(c) in ("os.remove", "os.unlink")]
+    prefixes = set()
+    for c in rm:
+        a = resolve_local(cfg, c.args[0], cfg.node_of(c))
+        if isinstance(a, ast.Call) and call_tail(a) == "to_path":
+            pk = kwarg(a, "prefix")
+            prefixes.add(U(pk) if pk is not None else "<default>")
+    chk.ob(rid, f"{ci.qual}.remove", len(prefixes) >= 2 and "<default>" in prefixes,
+           f"both halves are removed (to_path prefixes {sorted(prefixes)})", fn, mod, key="both-halves")
+    cl = ci.methods.get("clean")
+    ok = any(call_name(c) in ("os.remove", "os.unlink") for c in calls_in(cl)) and \
+        any(call_tail(c) == "glob" and "'*'" in U(c) for c in calls_in(cl))
+    chk.ob(rid, f"{ci.qual}.clean", ok, "clean removes every file under the cache directory", cl, mod, key="clean")
+
+
+def rule_location_agreement(chk, repo, rid):
+    chk.rule(rid, "store/get location agreement per back-end: the location expression used by the writer equals "
+                  "the one used by get/get_metadata/contains/remove")
+    mod = repo.module(CACHE)
+    # FileCache
+    ci = repo.cls(CACHE, "FileCache")
+    tp = ci.find_method("to_path")[1]
+    tp_def = dict(zip(params(tp)[2:], [U(d) for d in tp.args.defaults]))
+    def sig(c):
+        d = dict(tp_def)
+        for i, a in enumerate(c.args[1:]):
+            d[["prefix", "extension"][i]] = U(a)
+        d.update({k.arg: U(k.value) for k in c.keywords})
+        return tuple(sorted(d.items()))
+    sigs = {}
+    for mn in ("store", "store_metadata", "get", "get_metadata", "remove", "contains"):
+        fn = ci.methods.get(mn)
+        if fn is None:
+            raise AnalysisError(f"FileCache.{mn} missing")
+        sigs[mn] = {sig(c) for c in calls_in(fn, tail="to_path")}
+    data_w = {s for s in sigs["store"] if dict(s).get("prefix") != tp_def.get("prefix")}
+    data_r = {s for s in sigs["get"] if dict(s).get("prefix") != tp_def.get("prefix")}
+    chk.ob(rid, f"{ci.qual}", bool(data_w) and data_w == data_r,
+           f"data file location: store {sorted(data_w)} == get {sorted(data_r)}", ci.methods["get"], mod, key="file:data")
+    data_rm = {s for s in sigs["remove"] if dict(s).get("prefix") != tp_def.get("prefix")}
+    chk.ob(rid, f"{ci.qual}", data_w == data_rm, "data file location: store == remove", ci.methods["remove"], mod, key="file:data-remove")
+    md_w = sigs["store_metadata"]
+    for mn in ("get_metadata", "contains", "remove"):
+        md_r = {s for s in sigs[mn] if dict(s).get("prefix") == tp_def.get("prefix")}
+        chk.ob(rid, f"{ci.qual}", bool(md_w) and md_w == md_r, f"state file location: store_metadata == {mn}",
+               ci.methods[mn], mod, key=f"file:state-{mn}")
+    # the type used for the data extension comes from the same metadata field on both sides
+    def type_src(fn):
+        out = set()
+        for c in calls_in(fn, tail="get"):
+            if call_recv(c) == "state_types_registry()":
+                out.add(U(c.args[0]).replace('"', "'") if c.args else "")
+        return out
+    ts, tg = type_src(ci.methods["store"]), type_src(ci.methods["get"])
+    norm = lambda s: {x.replace("state.type_identifier", "TI").replace("metadata['type_identifier']", "TI") for x in s}
+    chk.ob(rid, f"{ci.qual}", norm(ts) == norm(tg) == {"TI"},
+           f"extension's state type resolved from the type identifier on both sides ({sorted(ts)} / {sorted(tg)})",
+           ci.methods["get"], mod, key="file:type-src")
+    # StoreCache
+    ci = repo.cls(CACHE, "StoreCache")
+    all_s = set()
+    for mn in ("store", "store_metadata", "get", "get_metadata", "remove", "contains"):
+        fn = ci.methods.get(mn)
+        if fn is None:
+            raise AnalysisError(f"StoreCache.{mn} missing")
+        s = {tuple([U(a) for a in c.args[1:]] + [f"{k.arg}={U(k.value)}" for k in c.keywords]) for c in calls_in(fn, tail="to_path")}
+        if not s:
+            raise AnalysisError(f"StoreCache.{mn}: no to_path call")
+        all_s |= s
+    chk.ob(rid, f"{ci.qual}", len(all_s) == 1, f"one location signature for all operations ({sorted(all_s)})", ci.node, mod, key="store:sig")
+    # SQL
+    ci = repo.cls(CACHE, "SQLCache")
+    for mn in ("get", "get_metadata", "remove"):
+        fn = ci.methods.get(mn)
+        ex = [(c, t) for c, w, t in sql_executes(fn) if t and w in ("SELECT", "DELETE")]
+        ok = bool(ex) and all("WHEREQUERY=?" in t.upper().replace(" ", "").replace("\n", "") and len(c.args) > 1
+                              and U(c.args[1]) == f"[{params(fn)[1]}]" for c, t in ex)
+        chk.ob(rid, f"{ci.qual}.{mn}", ok, "row selected by `WHERE query=?` bound to the key", fn, mod, key="sql:where")
+    for mn in ("store", "store_metadata"):
+        fn = ci.methods.get(mn)
+        for c, w, t in sql_executes(fn):
+            if w == "INSERT":
+                cols = [x.strip() for x in t[t.index("(") + 1:t.index(")")].split(",")]
+                chk.ob(rid, f"{ci.qual}.{mn}", cols and cols[0] == "query", "key is inserted into column `query`", c, mod, key="sql:insert-col")
+    # Memory
+    ci = repo.cls(CACHE, "MemoryCache")
+    g = ci.methods["get"]
+    st = ci.methods["store"]
+    gk = [U(c.args[0]) for c in calls_in(g, tail="get") if (call_recv(c) or "").startswith("self.")]
+    sk = [U(t.slice) for n in body_walk(st) if isinstance(n, ast.Assign) for t in n.targets if isinstance(t, ast.Subscript)
+          and U(t.value).startswith("self.")]
+    chk.ob(rid, f"{ci.qual}", gk == [params(g)[1]] and sk == [f"{params(st)[1]}.query"],
+           f"slot read by get ({gk}) is the key; slot written by store ({sk}) is state.query", g, mod, key="memory:slot")
+
+
+def cache_classes(repo):
+    return [ci for ci in repo.classes_in(CACHE) if ci.find_method("get")[1] is not None
+            and ci.find_method("store")[1] is not None]
+
+
+def rule_api_complete(chk, repo, rid):
+    chk.rule(rid, "every cache class defines or inherits the 8 cache-API methods")
+    mod = repo.module(CACHE)
+    cls = cache_classes(repo)
+    chk.floor(rid, len(cls), 13, "cache classes")
+    for ci in cls:
+        missing = [m for m in CACHE_API if ci.find_method(m)[1] is None]
+        chk.ob(rid, ci.qual, not missing, f"defines/inherits all of {CACHE_API}" if not missing else f"missing {missing}",
+               ci.node, mod, key="api")
+
+
+# =========================================================================== C10 / C04 / C09 / C12 rules
+def is_deep_copy_expr(e):
+    """`x.clone()`, `deepcopy(x)`, `copy.deepcopy(x)`, `x.as_dict()`, `json.loads(json.dumps(x))`"""
+    if not isinstance(e, ast.Call):
+        return False
+    t = call_tail(e)
+    if t in ("clone", "deepcopy", "as_dict"):
+        return True
+    if call_name(e) == "json.loads" and e.args and isinstance(e.args[0], ast.Call) and call_name(e.args[0]) == "json.dumps":
+        return True
+    return False
+
+
+def rule_memory_copy(chk, repo, rid):
+    chk.rule(rid, "the in-memory cache is copy-in / copy-out: every value written into its container and every "
+                  "value returned by get / get_metadata is a fresh deep copy (clone / deepcopy / as_dict)")
+    mod = repo.module(CACHE)
+    ci = repo.cls(CACHE, "MemoryCache")
+    g = ci.methods.get("get")
+    container = None
+    for c in calls_in(g, tail="get"):
+        r = call_recv(c)
+        if r and r.startswith("self."):
+            container = r
+    if container is None:
+        raise AnalysisError("MemoryCache.get: container not recognised")
+    st = ci.methods.get("store")
+    w = [n for n in body_walk(st) if isinstance(n, ast.Assign) and any(isinstance(t, ast.Subscript) and U(t.value) == container for t in n.targets)]
+    if not w:
+        raise AnalysisError("MemoryCache.store: container write not found")
+    for n in w:
+        chk.ob(rid, f"{ci.qual}.store", is_deep_copy_expr(n.value),
+               f"value stored is `{U(n.value)}`" + ("" if is_deep_copy_expr(n.value) else
+               ": the cache entry aliases the caller's state (the evaluator keeps mutating it: file name, query label)"),
+               n, mod, key="copy-in:data")
+    rets = [r for r in returns_of(g) if not is_none_const(r.value)]
+    if not rets:
+        raise AnalysisError("MemoryCache.get: no state-returning exit")
+    for r in rets:
+        chk.ob(rid, f"{ci.qual}.get", is_deep_copy_expr(r.value),
+               f"value returned is `{U(r.value)}`" + ("" if is_deep_copy_expr(r.value) else
+               ": callers (and the evaluator's in-place labelling) mutate the cached object"), r, mod, key="copy-out:data")
+    gm = ci.methods.get("get_metadata")
+    rets = [r for r in returns_of(gm) if not is_none_const(r.value)]
+    if not rets:
+        raise AnalysisError("MemoryCache.get_metadata: no returning exit")
+    for r in rets:
+        chk.ob(rid, f"{ci.qual}.get_metadata", is_deep_copy_expr(r.value),
+               f"metadata returned is `{U(r.value)}`" + ("" if is_deep_copy_expr(r.value) else
+               " (shallow: nested vars/log are shared with the cache entry)"), r, mod, key="copy-out:metadata")
+    sm = ci.methods.get("store_metadata")
+    mp = params(sm)[1]
+    ws = [n for n in body_walk(sm) if isinstance(n, ast.Assign) and any(U(t).endswith(".metadata") for t in n.targets)]
+    if not ws:
+        raise AnalysisError("MemoryCache.store_metadata: metadata write not found")
+    for n in ws:
+        chk.ob(rid, f"{ci.qual}.store_metadata", is_deep_copy_expr(n.value),
+               f"metadata stored is `{U(n.value)}`" + ("" if is_deep_copy_expr(n.value) else
+               " (the caller's dictionary itself is kept)"), n, mod, key="copy-in:metadata")
+
+
+def rule_lookup_key(chk, ev, rid):
+    chk.rule(rid, "the cache lookup key is the canonical text of the parsed query (same text the result is filed under)")
+    g = ev.one(ev.get_calls, "cache lookup")
+    a = g.args[0] if g.args else None
+    ok = a is not None and U(a) == f"{ev.queryvar}.encode()"
+    if ok:
+        qdefs = ev.cfg.reaching_defs(ev.queryvar, ev.node(g))
+        ok = all(d != ev.cfg.entry and call_tail(ev.cfg.nodes[d].ast.value) == "to_query" for d in qdefs)
+    chk.ob(rid, "liquer.context.Context.evaluate", ok,
+           f"lookup key is `{U(a)}`" + ("" if ok else f" (must be {ev.queryvar}.encode(): the as-typed text may hold a "
+           "metadata-only / foreign entry)"), g, ev.mod, key="lookup-key")
+
+
+def rule_lookup_before_work(chk, ev, rid):
+    chk.rule(rid, "lookup before work and early return on hit: the cache lookup precedes the predecessor recursion "
+                  "and the action on every non-bypass path, and the hit branch returns without reaching either")
+    C = "liquer.context.Context.evaluate"
+    cfg = ev.cfg
+    g = ev.one(ev.get_calls, "cache lookup")
+    gn = ev.node(g)
+    # the innermost test whose T edge dominates the lookup and whose F edge leads to the write side = G
+    st = ev.one(ev.store_calls, "cache.store site")
+    stn = ev.node(st)
+    gtests = []
+    for n in cfg.nodes:
+        if n.kind == "test" and cfg.edge_dominates(n.id, "T", gn):
+            fs = [m for m, lab in cfg.succ[n.id] if lab == "F"]
+            if fs and stn in cfg.reachable(fs[0]):
+                gtests.append((n.id, fs[0]))
+    if len(gtests) != 1:
+        raise AnalysisError(f"Context.evaluate: expected one bypass guard around the lookup, found {len(gtests)}")
+    gt, bypass = gtests[0]
+    work = [ev.node(c) for c in ev.rec_calls + ev.action_calls]
+    chk.floor(rid, len(work), 2, "work sites (recursion, action)")
+    for wn in work:
+        ok = wn not in cfg.reachable(cfg.entry, avoid=[gn], avoid_edges=[(gt, "F")])
+        chk.ob(rid, C, ok, f"`{U(cfg.nodes[wn].ast)[:50]}` is reached only after the lookup (or via the bypass edge)",
+               cfg.nodes[wn].ast, ev.mod, key="lookup-dominates:" + U(cfg.nodes[wn].ast)[:30])
+    # hit branch: the test on the looked-up value
+    var = None
+    a = cfg.nodes[gn].ast
+    if isinstance(a, ast.Assign) and a.value is g:
+        var = U(a.targets[0])
+    if var is None:
+        raise AnalysisError("Context.evaluate: lookup result is not bound to a local")
+    hit = None
+    for n in cfg.nodes:
+        if n.kind == "test":
+            for e, txt, pol in [(x[0], x[1], x[2]) for x in __import__("sa.lib", fromlist=["x"]).literals_of_test(n.ast, "T")]:
+                if txt == f"{var} is None" and pol is False and cfg.dominates(gn, n.id):
+                    hit = n.id
+    if hit is None:
+        raise AnalysisError("Context.evaluate: `if state is not None` hit test not found after the lookup")
+    tsucc = [m for m, lab in cfg.succ[hit] if lab == "T"][0]
+    reach = cfg.reachable(tsucc)
+    ok = not any(wn in reach for wn in work) and stn not in reach and cfg.exit in reach
+    chk.ob(rid, C, ok, "the hit branch returns the cached state without reaching the recursion, the action or cache.store",
+           cfg.nodes[hit].ast, ev.mod, key="hit-returns")
+    rets = [r for r in cfg.returns() if r in reach]
+    for r in rets:
+        v = cfg.nodes[r].ast.value
+        chk.ob(rid, C, v is not None and U(v) == var, f"the hit branch returns the looked-up state (`{U(v)}`)",
+               cfg.nodes[r].ast, ev.mod, key="hit-value")
+
+
+def rule_every_level_files(chk, ev, rid):
+    chk.rule(rid, "every recursion level files its own result: cache.store(state) is in Context.evaluate itself, after "
+                  "evaluate_action, on the admitted path")
+    C = "liquer.context.Context.evaluate"
+    st = ev.one(ev.store_calls, "cache.store site")
+    act = ev.one(ev.action_calls, "evaluate_action call")
+    cfg = ev.cfg
+    chk.ob(rid, C, cfg.dominates(ev.node(act), ev.node(st)), "the action evaluated at this level precedes the filing",
+           st, ev.mod, key="store-after-action")
+    # the state filed is the result of the action
+    ds = cfg.reaching_defs("state", ev.node(st))
+    ok = len(ds) == 1 and ds[0] == ev.node(act)
+    chk.ob(rid, C, ok, "the state filed is the value returned by evaluate_action", st, ev.mod, key="store-action-result")
+    # store failure is contained (try/except) so that a cache problem cannot fail the evaluation
+    # (informational only; not an obligation)
+
+
+def rule_combinator_store(chk, repo, rid):
+    chk.rule(rid, "combinators store when their condition admits and consult both children on lookups")
+    mod = repo.module(CACHE)
+    for cn in COND_WRAPPERS:
+        ci = repo.cls(CACHE, cn)
+        fn = ci.methods.get("store")
+        inner = [c for c in calls_in(fn, tail="store") if (call_recv(c) or "").startswith("self.") and call_recv(c) != "self"]
+        sp = params(fn)[1]
+        ok = bool(inner) and all([U(a) for a in c.args] == [sp] for c in inner) and \
+            any(isinstance(r.value, ast.Call) and r.value in inner for r in returns_of(fn))
+        chk.ob(rid, f"{ci.qual}.store", ok, "the admitting branch returns the wrapped cache's store(state) result", fn, mod, key="admit-store")
+    ci = repo.cls(CACHE, "CacheCombine")
+    for m in ("store", "get", "contains", "get_metadata"):
+        fn = ci.methods.get(m)
+        recv = {call_recv(c) for c in calls_in(fn, tail=m)}
+        chk.ob(rid, f"{ci.qual}.{m}", {"self.cache1", "self.cache2"} <= recv, f"consults both children ({sorted(x for x in recv if x)})", fn, mod, key="both")
+
+
+def rule_ready_marker_order(chk, repo, ev, ea, rid):
+    chk.rule(rid, "the `ready` marker is never visible before the data: per back-end the data write precedes the marker "
+                  "write (or both are one statement); at evaluator level a READY store_metadata before cache.store is "
+                  "harmless only for back-ends with a data-presence witness")
+    mod = repo.module(CACHE)
+    # FileCache.store: order of metadata (marker) write and data write
+    ci = repo.cls(CACHE, "FileCache")
+    fn = ci.methods.get("store")
+    cfg = CFG(fn)
+    md = [c for c in calls_in(fn, tail="store_metadata") if call_recv(c) == "self"]
+    data = [c for c in calls_in(fn, tail="write")] + [c for c in calls_in(fn, tail="open") if is_write_open(c)]
+    if not md or not data:
+        raise AnalysisError("FileCache.store: marker/data writes not recognised")
+    mdn = cfg.node_of(md[0])
+    first_data = min((cfg.node_of(c) for c in data), key=lambda n: cfg.nodes[n].lineno)
+    ok = not cfg.can_reach(mdn, first_data)
+    chk.ob(rid, f"{ci.qual}.store", ok,
+           "data is written before the status-ready metadata" if ok else
+           "metadata with status 'ready' is written before the data file is (truncated and) written: a concurrent "
+           "get() in between decodes an empty/partial file as a value", md[0], mod, key="marker-before-data")
+    # single-statement back-ends
+    for cn, m in (("SQLCache", "store"), ("MemoryCache", "store")):
+        c2 = repo.cls(CACHE, cn)
+        f2 = c2.methods.get(m)
+        if cn == "SQLCache":
+            ins = [c for c, w, t in sql_executes(f2) if w == "INSERT"]
+            ok = len(ins) == 1 and len(ins[0].args) > 1 and len(ins[0].args[1].elts) == 3
+            chk.ob(rid, f"{c2.qual}.store", ok, "metadata and data are inserted by one INSERT statement", f2, mod, key="atomic")
+        else:
+            ws = [n for n in body_walk(f2) if isinstance(n, ast.Assign) and any(isinstance(t, ast.Subscript) and U(t.value).startswith("self.") for t in n.targets)]
+            chk.ob(rid, f"{c2.qual}.store", len(ws) == 1, "the entry (metadata + data) is published by one slot assignment", f2, mod, key="atomic")
